@@ -388,6 +388,8 @@ def veq(a, b):
 
 
 def run(ctx):
+    from xfabsa import numeric as _NA
+    _NA.alias_rule(ctx, 'C18', ['xfab/tools.py', 'xfab/laue.py'])
     ctx.rule("vectors", "table rows are [i,j,k,|A.(i,j,k)|] covering |u|,|v|,|w| <= 2; sorted by length; picks are A.S[1], A.S[i*], A.S[j*]")
     ctx.rule("guards", "second and third pick guarded by positive thresholds on |cross| and on the distance to the plane")
     ctx.rule("layout", "layout in which the picked vectors are stored == layout a_to_cell reads")
@@ -399,7 +401,7 @@ def run(ctx):
         cell = sym_array(fn.args.args[0].arg, (6,))
         ev = ReduceEval(mod, cell)
         try:
-            ev.call_function("reduce_cell", [cell])
+            result = ev.call_function("reduce_cell", [cell])
         except RoundingFilter as rf:
             ctx.fail("C18:vectors:%s.coverage" % short,
                      "candidates are pruned by `%s`, which for the input's own basis vectors compares two mathematically equal "
@@ -408,8 +410,18 @@ def run(ctx):
             continue
         if ev.table is None or ev.handed is None:
             raise AnalysisError("%s.reduce_cell: no sorted candidate table / no call of a_to_cell was met" % short)
-        ctx.check(len(ev.form_calls) >= 1 and all(a[0] is cell for a in ev.form_calls), "C18:vectors:%s.basis" % short,
+        def is_cell(v_):
+            A_ = v_ if isinstance(v_, Arr) else materialise(v_) if isinstance(v_, (Opaque, list, tuple)) else None
+            C_ = materialise(cell)
+            return A_ is not None and A_.shape == (6,) and all(scalar(x_).equals(scalar(y_)) for x_, y_ in zip(A_.data, C_.data))
+        ctx.check(len(ev.form_calls) >= 1 and all(is_cell(a[0]) for a in ev.form_calls), "C18:vectors:%s.basis" % short,
                   "the lattice basis is not form_a_mat(unit_cell)", where)
+        # what is returned is what a_to_cell makes of the reduced basis, value by value
+        R_ = result if isinstance(result, Arr) else materialise(result) if isinstance(result, (Opaque, list, tuple)) else None
+        want_ = materialise(Opaque("a_to_cell(reduced)", (6,)))
+        ctx.check(R_ is not None and R_.shape == (6,) and all(scalar(x_).equals(scalar(y_)) for x_, y_ in zip(R_.data, want_.data)),
+                  "C18:layout:%s.result" % short, "reduce_cell does not return the six values a_to_cell computes from the reduced basis: %s"
+                  % (R_.key()[:120] if R_ is not None else result,), where)
         # ---- table rows: [i, j, k, |A.(i,j,k)|], or the vectors A.(i,j,k) themselves sorted by their lengths
         rows = ev.table.source
         vector_table = ev.table.width == 3
@@ -539,6 +551,7 @@ def run(ctx):
                         "that the three shortest independent vectors form a basis is the paper step"]
     ctx.assumptions += ["C01: columns of form_a_mat are the lattice vectors; a_to_cell as analysed there",
                         "argsort orders ascending; a search loop that finds no candidate (degenerate lattice) is outside the claim"]
+    N.hazard_rule(ctx, 'C18')
     return ("reduce_cell evaluated abstractly in both modules: the candidate table concretely over all index triples with a symbolic "
             "basis, the sort as a symbolic sorted table, the two searches as first-hit summaries; decided on the results: rows are "
             "integer combinations with their lengths, coverage of |u|,|v|,|w| <= 2, picks A.S[1], A.S[i*], A.S[j*], positive "
